@@ -206,9 +206,16 @@ static void body(expect e, std::uint64_t seed, bool can_block)
             {
                 // suspension released by a plain OS thread - possibly before the suspension completed
                 auto sem = std::make_shared<pika::counting_semaphore<>>(0);
+                if (r.below(2) == 0)
                 {
                     std::lock_guard<std::mutex> l(g_flag_mtx);
                     g_sems.push_back(sem);
+                }
+                else
+                {
+                    // released by a task on a (possibly different) pool
+                    auto& pd = g_pools[r.below(std::uint32_t(g_pools.size()))];
+                    ex::execute(ex::thread_pool_scheduler(pd.pool), [sem] { sem->release(); });
                 }
                 sem->acquire();
                 observe(e, "after suspension");
@@ -216,12 +223,11 @@ static void body(expect e, std::uint64_t seed, bool can_block)
             }
             default:
             {
-                auto flag = std::make_shared<std::atomic<bool>>(false);
-                {
-                    std::lock_guard<std::mutex> l(g_flag_mtx);
-                    g_flags.push_back(flag);
-                }
-                pika::util::yield_while([&] { return !flag->load(); }, "c10 spin");
+                // a bounded spin-wait: boosted yields (pending_boost) exactly as yield_while issues them
+                // from its 16th poll on (bounded, so that the log size does not depend on machine load)
+                unsigned polls = 2 + r.below(4);
+                for (unsigned k = 16; k < 16 + polls; ++k)
+                    pika::execution::this_thread::detail::yield_k(k, "c10 spin");
                 observe(e, "after boosted spin");
                 break;
             }
